@@ -81,9 +81,10 @@ def apply_reserve_resource_constraint(machine, constraint):
                 = resources_after_reservation(
                     machine.chip_resource_exceptions[location],
                     constraint)
-            # (NB: resource exceptions may be listed for
-            # dead chips, which cannot be looked up through the machine)
-            if overallocated(machine.chip_resource_exceptions[location]):
+            # (NB: resource exceptions may be listed for dead chips, which
+            # cannot be looked up through the machine and do not matter)
+            if (location in machine and
+                    overallocated(machine.chip_resource_exceptions[location])):
                 raise InsufficientResourceError(
                     "Cannot meet {}".format(constraint))
     elif constraint.location in machine:
